@@ -188,6 +188,7 @@ func load(repo string) (*Ctx, error) {
 			c.SSA[p.PkgPath] = spkgs[i]
 		}
 	}
+	curCtx = c
 	return c, nil
 }
 
